@@ -406,3 +406,30 @@ PROPS["C18"] = {
         },
     ],
 }
+
+PROPS["C04"] = {
+    "level": "model_checking",
+    "claim": "Bounded symbolic model checking of the REAL evaluator's disjunction machinery (scheduleDisjunction, crossProduct, doDisjunct with overlay cloning, appendDisjunct duplicate elimination, finalizeDisjunctions, Vertex.Default) against the spec's value/default-pair algebra: for every tuple of flat disjunctions of integer atoms with arbitrary default marks, unified with &, the set of atoms the result accepts is the intersection of the disjunctions' atom sets; the defaults the evaluator reports are exactly the set given by M0-M3, D0-D2, U0-U2 including the rule that a marked disjunction all of whose marked disjuncts are eliminated counts as unmarked; Default() resolves to an atom exactly when the pair has a unique default (or no default and a unique value) and then to that atom; ambiguity is never resolved silently; bottom arises only when no atom is common. Atoms are symbolic integers in 0..3, so which disjuncts coincide or conflict is decided by the solver.",
+    "note": "Trusted: go/ssa, the executor, z3, the decimal contract model. Outside: nested marked disjunctions (excluded by the property), struct disjuncts, disjuncts that are types or bounds, priorities/layers, cycles, disjunctions reached through references.",
+    "technique": "bounded symbolic execution of adt.Vertex.Finalize / Vertex.Default on DisjunctionExpr conjuncts with symbolic integer atoms (SMT Int) and enumerated marks; pointwise comparison with the spec oracle for an arbitrary probe atom, decided by z3",
+    "bounds": {
+        "quick": "2 disjunctions of <= 2 atoms each, atoms arbitrary in 0..3, every marking",
+        "thorough": "2 disjunctions of <= 3 atoms; 3 disjunctions of <= 2 atoms",
+    },
+    "outside": ["nested marked disjunctions", "struct/type/bound disjuncts", "layers and priorities"],
+    "assumptions": APD_ASSUMPTIONS,
+    "runs": [
+        {
+            "pkg": "./internal/core/adt",
+            "harness": ["adt/common.go", "adt/disjunct.go"],
+            "apdmodel": True,
+            "entries": {
+                "quick": [{"name": "verifHarnessDisjunctionDefaults", "params": {"TERMS": 2, "NDISJ": 2}}],
+                "thorough": [
+                    {"name": "verifHarnessDisjunctionDefaults", "params": {"TERMS": 3, "NDISJ": 2}},
+                    {"name": "verifHarnessDisjunctionDefaults", "params": {"TERMS": 2, "NDISJ": 3}},
+                ],
+            },
+        },
+    ],
+}
